@@ -565,3 +565,63 @@ func init() {
 	intrinsics["syscall.runtime_entersyscall"] = func(fr *frame, args []value) value { return nil }
 	intrinsics["syscall.runtime_exitsyscall"] = func(fr *frame, args []value) value { return nil }
 }
+
+// copystructure.Copy: reflection-based deep copy, re-implemented structurally.
+func init() {
+	intrinsics["github.com/mitchellh/copystructure.Copy"] = func(fr *frame, args []value) value {
+		memo := map[*value]*value{}
+		return tuple{deepCopyValue(fr.i, args[0], memo), iface{}}
+	}
+}
+
+func deepCopyValue(i *interpreter, v value, memo map[*value]*value) value {
+	switch v := v.(type) {
+	case iface:
+		if v.t == nil {
+			return v
+		}
+		return iface{v.t, deepCopyValue(i, v.v, memo)}
+	case *omap:
+		if v == nil {
+			return v
+		}
+		c := newOmap(v.keyT)
+		for _, e := range v.live() {
+			c.insert(i, deepCopyValue(i, e.key, memo), deepCopyValue(i, e.val, memo))
+		}
+		return c
+	case []value:
+		if v == nil {
+			return v
+		}
+		c := make([]value, len(v))
+		for k := range v {
+			c[k] = deepCopyValue(i, v[k], memo)
+		}
+		return c
+	case structure:
+		c := make(structure, len(v))
+		for k := range v {
+			c[k] = deepCopyValue(i, v[k], memo)
+		}
+		return c
+	case array:
+		c := make(array, len(v))
+		for k := range v {
+			c[k] = deepCopyValue(i, v[k], memo)
+		}
+		return c
+	case *value:
+		if v == nil {
+			return v
+		}
+		if c, ok := memo[v]; ok {
+			return c
+		}
+		c := new(value)
+		memo[v] = c
+		*c = deepCopyValue(i, *v, memo)
+		return c
+	}
+	return v
+}
